@@ -335,6 +335,22 @@ def _or_only(e) -> bool:
 # ----------------------------------------------------------------------
 # F1: round-to-odd wrapper invariants (gmputils)
 
+def f3_mpfr_exponent_range(ctx: Ctx):
+    """MPFR has an exponent range of its own (about +-2**30 with gmpy2 2.2, whatever `emax` the context asks for).  An
+    operation whose result leaves it does not fail under RoundToZero: it hands back MPFR's largest finite number (or
+    its smallest) with a non-zero ternary, and only the context's overflow / underflow flag says so.  The value may be
+    taken for the truncated result only after those flags were looked at."""
+    fn = ctx.fn(GMPUTILS, '_mpfr_call_with_prec')
+    withs = [s for s in walk_no_nested(fn) if isinstance(s, ast.With) and call_name(s.items[0].context_expr) == 'gmp.context']
+    if len(withs) != 1:
+        raise ShapeError('_mpfr_call_with_prec: the MPFR context block was not found')
+    w = withs[0]
+    name = w.items[0].optional_vars.id if isinstance(w.items[0].optional_vars, ast.Name) else None
+    read = {a.attr for a in ast.walk(w) if isinstance(a, ast.Attribute) and isinstance(a.value, ast.Name) and a.value.id == name} if name else set()
+    ctx.check({'overflow', 'underflow'} <= read, GMPUTILS, w, '_mpfr_call_with_prec', 'the MPFR overflow / underflow flags are consulted before the result is used',
+              'a result beyond MPFR\'s own exponent range comes back as its largest (smallest) finite number and is rounded like any other inexact value')
+
+
 def f1_round_to_odd(ctx: Ctx):
     repo = ctx.repo
     # (a) the only MPFR evaluation point truncates
